@@ -46,5 +46,7 @@ def run(chk):
                                  "getParent / getStepParent (obligations of C09-D4)")
     nr6 = c09.hierarchy_relations(chk, db, "C03-D6.relations")
     chk.floor("C03-D6.relations", nr6, 4, "local polynomial rules with closed-form hierarchy relations")
+    from rules import cache
+    cache.size_cache_rule(chk, db, "C03-D7.cache")
     return expl + (" Added: column/value agreement of the Kronecker Vandermonde pattern and the work-set selection of every grid method (the listed space, the evaluated surrogate and the weights "
-                   "refer to the same point set); tensor-product structure of the basis value routines.")
+                   "refer to the same point set); tensor-product structure of the basis value routines; coherence of the size-validated parent-DAG cache behind the weights.")
